@@ -29,6 +29,19 @@ def _is_word_char(ch: str) -> bool:
     return ch == "_" or "a" <= ch <= "z" or "A" <= ch <= "Z" or "0" <= ch <= "9"
 
 
+
+def _lower(ch: str) -> str:
+    """Simple case mapping of one character: mappings that change the length
+    ('İ'.lower(), 'ß'.upper()) do not apply, as in ECMAScript's Canonicalize."""
+    folded = ch.lower()
+    return folded if len(folded) == 1 else ch
+
+
+def _upper(ch: str) -> str:
+    folded = ch.upper()
+    return folded if len(folded) == 1 else ch
+
+
 class RegexTimeoutError(Exception):
     """Raised when regex execution times out."""
 
@@ -248,7 +261,7 @@ class RegexVM:
 
                 ch = string[sp]
                 if self.ignorecase:
-                    match = ord(ch.lower()) == char_code or ord(ch.upper()) == char_code
+                    match = ord(_lower(ch)) == char_code or ord(_upper(ch)) == char_code
                 else:
                     match = ord(ch) == char_code
 
@@ -341,7 +354,7 @@ class RegexVM:
                     continue
 
                 ch = string[sp]
-                ch_code = ord(ch.lower() if self.ignorecase else ch)
+                ch_code = ord(_lower(ch) if self.ignorecase else ch)
 
                 matched = False
                 for start, end in ranges:
@@ -350,7 +363,7 @@ class RegexVM:
                         if start <= ch_code <= end:
                             matched = True
                             break
-                        ch_upper = ord(ch.upper())
+                        ch_upper = ord(_upper(ch))
                         if start <= ch_upper <= end:
                             matched = True
                             break
@@ -376,14 +389,14 @@ class RegexVM:
                     continue
 
                 ch = string[sp]
-                ch_code = ord(ch.lower() if self.ignorecase else ch)
+                ch_code = ord(_lower(ch) if self.ignorecase else ch)
 
                 matched = False
                 for start, end in ranges:
                     if start <= ch_code <= end:
                         matched = True
                         break
-                    if self.ignorecase and start <= ord(ch.upper()) <= end:
+                    if self.ignorecase and start <= ord(_upper(ch)) <= end:
                         # Check both cases, like the positive class does
                         matched = True
                         break
@@ -536,7 +549,10 @@ class RegexVM:
                     pc, sp, captures, registers = self._backtrack(stack)
                     continue
 
-                if string[sp : sp + len(captured)].lower() == captured.lower():
+                if all(
+                    _lower(x) == _lower(y)
+                    for x, y in zip(string[sp : sp + len(captured)], captured)
+                ):
                     sp += len(captured)
                     pc += 1
                 else:
